@@ -140,7 +140,7 @@ def _job(args):
                 for cname, kw, inc, rxs in configs:
                     r = scan.real_scan(base, root, mp, **kw)
                     out["n"] += 1
-                    case = dict(dirs=[list(d) for d in dirs], files={scan.dotted(f): (scan.render_file(v["body"]) if v["py"] else None) for f, v in files.items()},
+                    case = dict(dirs=[list(d) for d in dirs], files={scan.dotted(f): (scan.render_v(v) if v["py"] else None) for f, v in files.items()},
                                 module_path=list(mp), config=cname, options={k: list(v) if isinstance(v, tuple) else v for k, v in kw.items()})
                     if r[0] != "OK":
                         out["violations"].append((dict(case, error=r[1]), f"scan with {cname} failed: {r[1]}", {"kind": "scan_error"}))
